@@ -188,13 +188,29 @@ def evaluate(texts, spacing, first):
             s = need + (0 if first == "early" else 7000000)
         else:
             prev_end = cues[-1][1]
-            s = prev_end + (need + int(4 * FRAME) if spacing == "feasible" else 10000000)
+            if spacing == "feasible":
+                s = prev_end + need + int(4 * FRAME)
+            elif spacing == "overlap-load":
+                # the next caption has to start loading while the previous one is still displayed: the previous
+                # cue ends after the load has begun but well (> 3 frames) before the next start
+                s = prev_end + max(need // 2, int(6 * FRAME))
+            else:
+                s = prev_end + 10000000
         cues.append((s, s + 2000000, lines))
     try:
         doc = SCCWriter().write(build_set(cues))
+        # the same writer object used a second time must write the same document
+        global _SHARED_WRITER
+        if _SHARED_WRITER is None:
+            _SHARED_WRITER = SCCWriter()
+        doc2 = _SHARED_WRITER.write(build_set(cues))
     except Exception as e:  # noqa
         return [(f"raises:{type(e).__name__}", {"err": str(e)[:200]})], "raises"
     v, out = check_output(doc, cues)
+    if doc2 != doc:
+        v2, _ = check_output(doc2, cues)
+        v.append(("reused-writer-output-differs" + ("+invalid" if v2 else ""), {"kinds": [k for k, _ in v2][:4]}))
+        _SHARED_WRITER = None
     # re-read with pycaption's own reader
     try:
         cs = SCCReader().read(doc)
@@ -211,6 +227,9 @@ def evaluate(texts, spacing, first):
     for kind, det in v:
         det["doc"] = doc[:1500]
     return v, out
+
+
+_SHARED_WRITER = None
 
 
 def feature(texts):
@@ -287,7 +306,7 @@ def run_shard(d):
         n = 0
         for ncues in (2, 3):
             for combo in itertools.product(REP[:7], repeat=ncues):
-                for spacing in ("feasible", "sparse"):
+                for spacing in ("feasible", "overlap-load", "sparse"):
                     for first in ("early", "late"):
                         n += 1
                         if n % 4 != d["part"]:
@@ -297,5 +316,11 @@ def run_shard(d):
 
 
 def replay(case):
+    global _SHARED_WRITER
+    from pycaption import SCCWriter
+
+    # a reused writer: give the shared object one earlier document to write
+    _SHARED_WRITER = SCCWriter()
+    _SHARED_WRITER.write(build_set([(20000000, 22000000, ["earlier document"])]))
     v, _ = evaluate(case["texts"], case["spacing"], case["first"])
     return [{"sig": f"C17/{k}/{feature(case['texts'])}", "detail": det} for k, det in v]
